@@ -4,6 +4,7 @@ import (
 	"fmt"
 	"go/ast"
 	"go/token"
+	"go/types"
 	"sort"
 	"strings"
 )
@@ -13,6 +14,7 @@ func init() { register("C04", checkC04) }
 func checkC04(p *Prog, r *Report) {
 	c04Errors(p, r)
 	c04Readers(p, r)
+	c04Expected(p, r)
 	c04Pipeline(p, r)
 	c04Transform(p, r)
 	c04LoadYear(p, r)
@@ -353,6 +355,22 @@ func c04Transform(p *Prog, r *Report) {
 			// next cursor ran past the year: (index+1) − T >= 0
 			return g.Kind == "cmp" && !g.Loop && g.P.MentionsAtom(ls[1].Var) && (g.Op == token.GEQ || g.Op == token.GTR || g.Op == token.LEQ || g.Op == token.LSS) && strings.Contains(lname, "next")
 		})
+		// previous-day cursor at the first record of a year: last record of the previous year
+		if strings.Contains(lname, "prev") && !e.Val.Equal(d.Sub(PInt(1))) {
+			wrapPrev := e.HasGuard(func(g *Cond) bool {
+				return g.Kind == "cmp" && !g.Loop && stripVersions(g.P).Equal(mkCmp(d.Sub(PInt(1)), PZero(), token.LSS, nil).P)
+			})
+			if wrapPrev {
+				v := stripVersions(e.Val)
+				want := PAtom(cellAtom(weatherYearLenRoot(v), 0, []Poly{y.Sub(PInt(1))})).Sub(PInt(1))
+				r.Ob("replace:prev-wrap", p.Pos(e.Pos), v.Equal(want), fmt.Sprintf("before the first day of a year the previous-day cursor is set to %s; the last record of the previous year is MaxYearDays[y−1] − 1", v))
+			}
+		}
+		if strings.Contains(lname, "year") && strings.Contains(lname, "prev") && e.HasGuard(func(g *Cond) bool {
+			return g.Kind == "cmp" && !g.Loop && stripVersions(g.P).Equal(mkCmp(d.Sub(PInt(1)), PZero(), token.LSS, nil).P)
+		}) {
+			r.Ob("replace:prev-wrap-year", p.Pos(e.Pos), stripVersions(e.Val).Equal(y.Sub(PInt(1))), fmt.Sprintf("previous-year cursor at the year start = %s (must be y − 1)", e.Val))
+		}
 		if strings.Contains(lname, "next") && wrapNext {
 			if c, isC := e.Val.ConstInt(); isC && c >= 0 {
 				r.Ob("replace:next-wrap", p.Pos(e.Pos), e.Val.Equal(lo), fmt.Sprintf("after the last day of a year the next-day cursor is set to %s; the first record of the following year is index %s (the day loop's lower bound)", e.Val, lo))
@@ -633,4 +651,76 @@ func unconditionalIn(e *Event, L *LoopCtx) bool {
 		return L.Cond == nil
 	}
 	return idx == len(e.Guards)-1
+}
+
+// weatherYearLenRoot returns the root of the year-length array mentioned in v
+// (the receiver's MaxYearDays), or a placeholder that cannot match.
+func weatherYearLenRoot(v Poly) string {
+	root := "?.MaxYearDays"
+	v.walkAtoms(func(a *Atom) {
+		if a.Kind == "cell" && strings.HasSuffix(a.Root, ".MaxYearDays") {
+			root = a.Root
+		}
+	})
+	return root
+}
+
+// c04Expected: in the date-keyed layouts the expected day of year is a running
+// counter that the consecutive-day test compares with the record's own date.
+// It may be seeded from the record only for the very first record; every other
+// definition must be independent of the record being validated (counter + 1,
+// or 1 at a year change) — otherwise the test compares the date with itself.
+func c04Expected(p *Prog, r *Report) {
+	r.Rule("C04.R2b", "the expected day-of-year counter of the date-keyed readers is independent of the record it validates: it is seeded from a record's date only under the first-record flag, otherwise advanced by one or reset to 1; the consecutive-day test compares the record's own day of year with that counter", 6)
+	for _, key := range []string{"hermes.ReadWeatherCSV", "hermes.ReadWeatherCZ"} {
+		x := walked(p, key)
+		if x == nil {
+			r.Ob(short(key), "-", false, "reader not found")
+			continue
+		}
+		// the counter: local compared in the guard of the "missing days" error return
+		var ctr types.Object
+		for _, e := range x.Events {
+			if e.Kind == "assign" && e.Local != nil && e.Local.Name() == "T" {
+				ctr = e.Local
+			}
+		}
+		if ctr == nil {
+			r.Ob(short(key)+":counter", "-", false, "expected-day counter not found")
+			continue
+		}
+		for _, e := range x.Events {
+			if e.Kind != "assign" || e.Local != ctr {
+				continue
+			}
+			fromRecord := false
+			e.Val.walkAtoms(func(a *Atom) {
+				if a.Kind == "opq" || a.Kind == "call" || a.Kind == "cell" {
+					fromRecord = true
+				}
+			})
+			ok := true
+			how := ""
+			switch {
+			case !fromRecord && len(e.Loops) == 0:
+				how = "initialised to " + e.Val.String()
+			case !fromRecord && e.Val.Sub(e.Old).Equal(PInt(1)):
+				how = "advanced by one per record"
+			case !fromRecord:
+				if c, isC := e.Val.ConstInt(); isC && c == 1 {
+					how = "reset to 1 at a year change"
+				} else {
+					ok, how = false, "unexpected definition "+e.Val.String()
+				}
+			default:
+				first := e.HasGuard(func(c *Cond) bool { return c.Kind == "opq" && strings.HasPrefix(c.Text, "first@") })
+				if first {
+					how = "seeded from the record's date under the first-record flag"
+				} else {
+					ok, how = false, "re-seeded from the record's own date ("+clip(e.Val.String(), 60)+") outside the first-record case: the consecutive-day test then compares the date with itself and a gap (e.g. across New Year) is accepted"
+				}
+			}
+			r.Ob(short(key)+":counter", p.Pos(e.Pos), ok, "T: "+how)
+		}
+	}
 }
